@@ -53,7 +53,8 @@ PrefixW(W, k, vs) == [v \in vs |-> SubSeq(W[v], 1, k)]
 Default(vs) == [v \in vs |-> 0]
 NewObj(c) == [cfg |-> c, phase |-> "new", phi |-> Null, inst |-> Null,
               hist |-> EmptyW(c.vars), ts |-> <<>>, on |-> <<>>, outOn |-> <<>>,
-              offOut |-> <<>>, viol |-> 0, cur |-> Default(c.vars), ecfg |-> c]
+              offOut |-> <<>>, viol |-> 0, cur |-> Default(c.vars), ecfg |-> c,
+              tols |-> <<>>]      \* the tolerance in force at each update() since the last reset (it may be re-configured: Retolerance)
 \* the sample an update() with the (possibly partial) assignment s means
 Full(m, s) == [v \in m.cfg.vars |-> IF v \in DOMAIN s THEN s[v] ELSE m.cur[v]]
 
@@ -81,6 +82,8 @@ RepastifyF(m) == IF m.phase = "online" THEN [m EXCEPT !.phase = "stale"] ELSE m
 \* the tolerance test of DiscreteTimeInterpreter.update_sampling_violation_counter
 BadGap(c, g) == g < c.period - c.tol \/ g > c.period + c.tol
 CountBad(c, T) == Cardinality({k \in 1..(Len(T) - 1) : BadGap(c, T[k+1] - T[k])})
+\* ... when the tolerance was re-configured between updates: every gap is judged by the tolerance in force when its second sample arrives
+CountBadT(c, T, tl) == Cardinality({k \in 1..(Len(T) - 1) : BadGap([c EXCEPT !.tol = tl[k+1]], T[k+1] - T[k])})
 
 \* update(t, s); the first update installs the AST in the interpreter (set_ast builds the operators);
 \* an AST with a future operator is rejected there with RTAMTException
@@ -103,6 +106,7 @@ UpdateF(m, s0, t, Dev) ==
             !.hist = AppendW(m.hist, s, m.cfg.vars),
             !.cur = s,
             !.ts = Append(m.ts, t),
+            !.tols = Append(m.tols, m.cfg.tol),
             !.viol = IF m.ts # <<>> /\ BadGap(m.cfg, t - m.ts[Len(m.ts)]) THEN m.viol + 1 ELSE m.viol]
 
 \* reset(): operators back to their initial memories, histories and counters cleared.  Before the first update it changes
@@ -111,7 +115,7 @@ CanReset(m) == (OnlinePhase(m) \/ m.phase = "stale") /\ OnlineOK(m.inst)
 ResetF(m, Dev) ==
   [m EXCEPT !.phase = IF m.phase = "stale" THEN "online" ELSE m.phase,
             !.on = InitOn(m.inst), !.outOn = <<>>,
-            !.hist = EmptyW(m.cfg.vars), !.ts = <<>>,
+            !.hist = EmptyW(m.cfg.vars), !.ts = <<>>, !.tols = <<>>,
             \* (deviation resetKeepsInputs: the code before its repair kept the last values of the inputs)
             !.cur = IF "resetKeepsInputs" \in Dev THEN m.cur ELSE Default(m.cfg.vars),
             !.viol = IF "resetKeepsViol" \in Dev \/ ("staleKeepsViol" \in Dev /\ m.phase = "stale") THEN m.viol ELSE 0]
@@ -135,6 +139,11 @@ ExtendF(m, s, t) == ExtendFD(m, s, t, {})
 \* set_sampling_period() / set_var_io_type() and parse() again on an object that is not fed online: the configuration in force
 \* when the next evaluate() runs decides (interface-aware predicates, tolerance band; with written bounds also their sample counts,
 \* see Norm and TraceDt!ApplyConfig).  Scale, variables and the kind of semantics are fixed at construction.
+\* set_sampling_period() with the same period (perhaps re-stated in another unit) and another tolerance on an online monitor,
+\* between updates: the gaps that follow are judged by the new tolerance (the operators keep their sample counts)
+CanRetolerance(m, c) == OnlinePhase(m) /\ c # m.cfg /\ [c EXCEPT !.tol = m.cfg.tol] = m.cfg
+RetoleranceF(m, c) == [m EXCEPT !.cfg = c]
+
 CanReconfigure(m, c) == /\ m.phase \in {"parsed", "offline"} /\ c # m.cfg
                         /\ c.vars = m.cfg.vars /\ c.S = m.cfg.S /\ c.M.sem = m.cfg.M.sem     \* (the semantics is a constructor argument)
 ReconfigureF(m, c) == [m EXCEPT !.cfg = c]
@@ -170,6 +179,7 @@ Repastify(i)  == OnlineMode /\ CanRepastify(ms[i]) /\ ms[i].phase = "online" /\ 
 OfflineMode == Mode \in {"offline", "offline_re"}
 Extend(i, s, g) == /\ OfflineMode /\ CanEvaluate(ms[i]) /\ Len(ms[i].ts) < MaxLen
                    /\ ms' = [ms EXCEPT ![i] = ExtendFD(ms[i], s, NextStamp(ms[i], g), Dev)]
+Retolerance(i, c) == OnlineMode /\ CanRetolerance(ms[i], c) /\ ms' = [ms EXCEPT ![i] = RetoleranceF(ms[i], c)]
 Reparse(i, f) == Mode = "offline_re" /\ CanReparse(ms[i]) /\ f # ms[i].phi /\ ms' = [ms EXCEPT ![i] = ReparseF(ms[i], f)]
 Reconfigure(i, c) == /\ OfflineMode /\ CanReconfigure(ms[i], c)
                      /\ ms' = [ms EXCEPT ![i] = ReconfigureF(ms[i], c)]
@@ -183,6 +193,7 @@ Next == \E i \in 1..K :
           \/ Repastify(i)
           \/ \E c \in Configs : Reconfigure(i, c)
           \/ \E f \in Formulas : Reparse(i, f)
+          \/ \E c \in Configs : Retolerance(i, c)
 
 Spec == Init /\ [][Next]_vars
 
@@ -232,7 +243,7 @@ C10cur(m) == m.phase = "online" =>
 
 \* C13: the counter equals the number of out-of-tolerance gaps since the last reset / of the data set
 \* (offline: under the configuration in force at that evaluation)
-C13(m) == /\ m.phase = "online" => m.viol = CountBad(m.cfg, m.ts)
+C13(m) == /\ m.phase = "online" => m.viol = CountBadT(m.cfg, m.ts, m.tols)
           /\ m.phase = "offline" => m.viol = CountBad(m.ecfg, m.ts)
 \* C01 / C06 on a re-configured object: the last result is the semantics under the configuration in force at that evaluation
 C01cfg(m) == m.phase = "offline" => m.offOut = Sig(m.phi, m.hist, Len(m.ts), m.ecfg.S, m.ecfg.M)
